@@ -33,6 +33,15 @@ CLAIMED = {
         "Wire decoding and gRPC semantics are not claimed.",
         "Trusted: jinja2 parser, ast; grpc / api_core behaviour.",
         "DESIGN.md 4/C03"),
+    "C04": (
+        "slot / guard / path rules on REST transport skeletons + ast patterns and regex-AST rules on HTTP rule parsing",
+        "Decides that every binding is emitted in order with verb, uri and body-iff-body, that transcoding receives the binding "
+        "table and the protobuf form of the request, that body/query JSON and $alt follow the numeric-enum option, that required "
+        "query fields get defaults keyed by JSON names, that errors raise before the reply is parsed with ignore_unknown_fields "
+        "into the declared type, that methods without a binding raise NotImplementedError, and that the path-variable regexes "
+        "cannot swallow later variables. Losslessness of transcoding itself is api_core's and is not claimed.",
+        "Trusted: google.api_core.path_template.transcode, protobuf json_format.",
+        "DESIGN.md 4/C04"),
     "C05": (
         "signature / dominance / per-shape application rules on client skeletons + ast pattern checks of _fields_mapping",
         "Decides that flattened parameters are keyword-only in declared order, that the ValueError check tests `is not None` "
